@@ -12,7 +12,10 @@ HW == {[k |-> "hw", algs |-> a, single |-> s, chunks |-> c, seed |-> 7] :
 \* the same through io.WriteString (a writer may offer a WriteString method of its own)
 HWs == {[k |-> "hw", algs |-> a, single |-> s, chunks |-> c, seed |-> 9, as_string |-> TRUE] :
           a \in {<<"sha256">>, <<"md5", "sha512">>, <<"sha1", "md5", "sha256", "sha512">>}, s \in BOOLEAN, c \in FewChunkings}
-HWok == {v \in HW \cup HWs : v.single => Len(v.algs) = 1}
+\* an algorithm named more than once: every slot is a hasher of its own
+DupSeqs == {<<"sha256", "md5", "sha256">>, <<"md5", "md5">>, <<"sha1", "sha512", "sha1", "sha1">>}
+HWd == {[k |-> "hw", algs |-> a, single |-> FALSE, chunks |-> c, seed |-> 7] : a \in DupSeqs, c \in FewChunkings}
+HWok == {v \in HW \cup HWs \cup HWd : v.single => Len(v.algs) = 1}
 Bufs == {<<1>>, <<200>>, <<1, 1, 1>>, <<2, 64, 200, 200>>, <<64, 64, 64, 64>>, <<3, 200>>}
 \* the source may deliver its last bytes together with io.EOF ("dataerr"), one byte per call, or half a buffer
 HR == {[k |-> "hr", algs |-> a, single |-> s, chunks |-> c, total |-> t, seed |-> 11, src |-> "plain"] :
@@ -20,7 +23,11 @@ HR == {[k |-> "hr", algs |-> a, single |-> s, chunks |-> c, total |-> t, seed |-
       \cup {[k |-> "hr", algs |-> a, single |-> s, chunks |-> c, total |-> t, seed |-> 13, src |-> sr] :
           a \in {<<"sha256">>, <<"md5", "sha512">>, <<"sha1", "md5", "sha256", "sha512">>}, s \in BOOLEAN, c \in Bufs,
           t \in {0, 1, 5, 130}, sr \in {"dataerr", "onebyte", "half"}}
-HRok == {v \in HR : v.single => Len(v.algs) = 1}
+HRd == {[k |-> "hr", algs |-> a, single |-> FALSE, chunks |-> c, total |-> t, seed |-> 11, src |-> "plain"] : a \in DupSeqs, c \in Bufs, t \in {5, 130}}
+\* a source whose second Read delivers bytes together with a transient error and then goes on
+HRt == {[k |-> "hr", algs |-> a, single |-> s, chunks |-> c, total |-> 130, seed |-> 13, src |-> "transient"] :
+          a \in {<<"sha256">>, <<"md5", "sha512">>}, s \in BOOLEAN, c \in {<<1, 1, 1>>, <<2, 64, 200, 200>>, <<64, 64, 64, 64>>}}
+HRok == {v \in HR \cup HRd \cup HRt : v.single => Len(v.algs) = 1}
 Sources == {<<"sha256", "dsc256">>, <<"sha256", "best">>, <<"sha512", "best">>, <<"sha256", "bestloop">>, <<"sha512", "bestloop">>,
             <<"sha256", "bestafter">>, <<"sha512", "bestafter">>} \cup {<<a, "hasher">> : a \in Algs}
 RecordedKinds(alg) == {"equal", "upper", "unequal", "trunc_odd", "trunc_even", "trunc_zero_tail", "empty_content_hash", "longer", "zero_padded"} \cup
